@@ -57,9 +57,9 @@ def plan(tier, seed):
     if _CELLS is None:
         _CELLS = cells()
     if tier == 'quick':
-        return [{'c': i, 'rep': 0} for i in range(len(_CELLS))]
+        return [{'c': i, 'rep': 0} for i in range(len(_CELLS))] + [{'c': i, 'rep': 1} for i in range(len(_CELLS))]
     items = []
-    for rep in range(4):
+    for rep in range(12):
         items += [{'c': i, 'rep': rep} for i in range(len(_CELLS))]
     # position enumerated for the asynchronous kinds
     for i, (f, m, nzcv, k) in enumerate(_CELLS):
